@@ -131,9 +131,13 @@ RouteSane ==
 ChainSane ==
   \A k \in 1..Len(T.lays) : \A p \in Points :
     LET ch == R!HitChain(R!At(T, k), T.lays[k], p[1], p[2]) IN
-    ch # <<>> => /\ ch[1] = 1
-                 /\ \A i \in 2..Len(ch) : T.pars[k][ch[i]] = ch[i - 1]
-                 /\ \A i \in 1..Len(ch) : ~T.lays[k][ch[i]].hid
+    /\ ch # <<>> => /\ ch[1] = 1
+                    /\ \A i \in 2..Len(ch) : T.pars[k][ch[i]] = ch[i - 1]
+                    /\ \A i \in 1..Len(ch) : ~T.lays[k][ch[i]].hid
+    \* R2t: the chain with the later sibling on top is one of the chains with ties left open, each of which is a path of drawn widgets
+    /\ ch \in R!HitChains(R!At(T, k), T.lays[k], p[1], p[2])
+    /\ \A c \in R!HitChains(R!At(T, k), T.lays[k], p[1], p[2]) :
+         (c = <<>>) = (ch = <<>>) /\ \A i \in 2..Len(c) : T.pars[k][c[i]] = c[i - 1] /\ ~T.lays[k][c[i]].hid
 (* hover kept by the oracle is always a chain prefix-closed set of the last drawn frame's tree *)
 HoverClosed == \A w \in st.hover : w = 1 \/ T.pars[st.lay][w] \in st.hover
 =============================================================================
